@@ -731,7 +731,7 @@ fn check_union(rec: &mut Recorder, e: &ElemInfo, mb: &Module, mr: &Module, a0: &
 pub fn run_c08(args: &Args, rec: &mut Recorder) {
     rec.rule = "evaluation = one merge of module B into module A (generated with controlled overlap: disjoint, identical twins, same-name conflicts across kinds, pre-existing X.MERGE names, singletons on none/one/both sides, chains of merges) followed by a conservation ledger over element markers: every element of A unchanged (same-name GROUP/FUNCTION may only gain members), every element of B represented exactly once under its name or a fresh name N.MERGE[k] with unchanged content, unique names per namespace, nothing invented; plus merge(A, empty) == A, merge(A, copy of A) == A, merge(empty, B) = B. distinct_nontrivial = distinct (A,B) pairs by content hash".into();
     rec.assumptions.push("USER_RIGHTS and SYSTEM_CONSTANT with the same id on both sides are dropped by documented design and not judged; scalar content of B's same-name GROUP/FUNCTION is documented as not merged".into());
-    let total: u64 = if args.thorough { 300_000 } else { 15_000 };
+    let total: u64 = if args.thorough { 300_000 } else { 50_000 };
     run_cases(args, rec, total, crate::util::reset_budget, |rng, case, rec| {
         let pair = gen_pair(rng, rec);
         let (a0, b0) = (pair.a.clone(), pair.b.clone());
@@ -831,7 +831,7 @@ pub fn run_c08(args: &Args, rec: &mut Recorder) {
 pub fn run_c09(args: &Args, rec: &mut Recorder) {
     rec.rule = "evaluation = one merge of an internally consistent module B (every reference site of the frozen site table populated) into a module A with overlapping names; for every reference edge (b, site, t) of B whose referrer b was moved into the result (not an identical twin shared with A), the reference read from the element carrying b's marker at the same site must resolve to the element carrying t's marker. distinct_nontrivial = distinct (A,B) pairs by content hash".into();
     rec.assumptions.push("identical twins (same name and content on both sides) are shared by definition and their references are not judged; references to conventional names (NO_COMPU_METHOD, NO_INPUT_QUANTITY, NO_INVERSE_TRANSFORMER, THIS.x) are not edges".into());
-    let total: u64 = if args.thorough { 300_000 } else { 15_000 };
+    let total: u64 = if args.thorough { 300_000 } else { 50_000 };
     let mut site_hits: BTreeMap<String, u64> = BTreeMap::new();
     run_cases(args, rec, total, crate::util::reset_budget, |rng, _case, rec| {
         let pair = gen_pair(rng, rec);
